@@ -35,6 +35,7 @@ type c07Plan struct {
 	Mode    string   `json:"mode"` // server | client
 	L       int      `json:"limit"`
 	ReadBuf int      `json:"read_buffer_size"`
+	RespUse string   `json:"client_response_objects,omitempty"` // fresh | released (back to the pool after each call) | reused (one Response for all calls)
 	Reqs    []c07Req `json:"reqs"`
 }
 
@@ -79,6 +80,24 @@ func scenC07(e *Env) func() {
 			}
 		}
 		p.Reqs = append(p.Reqs, r)
+	}
+	if p.Mode == "client" {
+		// the client's body buffers are pooled objects: what an earlier, legal
+		// response left in them (capacity) must not widen the limit for a later one
+		p.RespUse = Pick(e, "fresh", "released", "reused", "released")
+		for i := range p.Reqs {
+			if p.Reqs[i].Kind != "head" && e.Chance(35) {
+				p.Reqs[i].Framing = "close"
+			}
+		}
+		if e.Chance(40) && l < 200000 {
+			// flavour: a response just within the limit grows the buffer, then
+			// identity-until-close responses slightly above the limit follow
+			p.Reqs = append([]c07Req{{ID: "g0", Kind: "body", Size: Pick(e, l, l-1, l), Framing: Pick(e, "cl", "close", "chunked-one")}}, p.Reqs...)
+			for i := 0; i < 2; i++ {
+				p.Reqs = append(p.Reqs, c07Req{ID: fmt.Sprintf("g%d", i+1), Kind: "body", Size: l + Pick(e, 1, 2, 10, l/3+1), Framing: Pick(e, "close", "close", "cl", "chunked-one")})
+			}
+		}
 	}
 	e.Sample = p
 	if p.Mode == "client" {
@@ -379,7 +398,7 @@ func c07Client(e *Env, p *c07Plan) {
 		case "chunked-tiny", "chunked-one", "chunked-mixed":
 			fr = "chunked"
 		}
-		if r.Kind == "head" {
+		if r.Kind == "head" || r.Framing == "close" {
 			fr = "close"
 		}
 		size := r.Size
@@ -392,9 +411,19 @@ func c07Client(e *Env, p *c07Plan) {
 	fs.Start()
 	var ds DialStats
 	hc := &fasthttp.HostClient{Addr: "10.0.0.2:80", Dial: e.Dialer("10.0.7.9", &ds), MaxResponseBodySize: limit, ReadBufferSize: p.ReadBuf, ReadTimeout: time.Minute}
+	var shared *fasthttp.Response
 	for _, r := range p.Reqs {
 		a := acts[r.ID]
-		req, resp := fasthttp.AcquireRequest(), fasthttp.AcquireResponse()
+		req, resp := fasthttp.AcquireRequest(), (*fasthttp.Response)(nil)
+		switch p.RespUse {
+		case "reused":
+			if shared == nil {
+				shared = fasthttp.AcquireResponse()
+			}
+			resp = shared
+		default:
+			resp = fasthttp.AcquireResponse()
+		}
 		req.SetRequestURI("http://10.0.0.2/x?id=" + r.ID)
 		err := hc.Do(req, resp)
 		e.Ob(1)
@@ -417,6 +446,10 @@ func c07Client(e *Env, p *c07Plan) {
 				return
 			}
 		}
+		if p.RespUse == "released" {
+			fasthttp.ReleaseResponse(resp)
+		}
+		fasthttp.ReleaseRequest(req)
 	}
 	fs.Ln.Close()
 }
